@@ -2,7 +2,7 @@ META = dict(
     engine='seqx',
     technique='exhaustive enumeration of the source-presence box (one child process per configuration, real parsec_init / MCA registry) against the precedence model',
     level_text='Every combination of type {int,size_t,string} x override {none,set,set+unset} x 0..3 repeated --mca options x --mca on the synonym x PARSEC_MCA_ env var on the primary / synonym name x parameter file naming the primary and/or synonym x registration before/after parsec_init x {parsec_init, registry API only} is executed in its own process on the real runtime; lookup_<type>, lookup_source and the source file are compared with override > command line/environment > file > default, repeated --mca options comma-joined.',
-    level_note='One test parameter with one synonym; values are fixed per source; the quick tier uses the sub-box override {none,set}, --mca count {0,2}, file {-,P,PS}, registration after parsec_init, parsec_init path only (288 processes; 3240 in thorough). The parameter file is named through PARSEC_MCA_mca_param_files because this build has PARSEC_WANT_HOME_CONFIG_FILES off (no $HOME/.parsec lookup). Within the environment level the order primary-vs-synonym name is not judged; for the same name the command line must replace the environment variable.',
+    level_note='One test parameter with one synonym (plus a second, never valued synonym registered before / after it: the lookup must not depend on the number or order of synonyms); values are fixed per source; the quick tier uses the sub-box override {none,set}, --mca count {0,2}, file {-,P,PS}, registration after parsec_init, parsec_init path only (528 processes; 9720 in thorough). The parameter file is named through PARSEC_MCA_mca_param_files because this build has PARSEC_WANT_HOME_CONFIG_FILES off (no $HOME/.parsec lookup). Within the environment level the order primary-vs-synonym name is not judged; for the same name the command line must replace the environment variable.',
 )
 RULE = ("full-box enumeration, one process per configuration; states = distinct (type, value, source) outcomes; a configuration is non-trivial when at least two precedence levels carry a value")
 
